@@ -56,6 +56,27 @@ if which == "hmm":
                 want[t] = int(np.argmax(a_un[t] + np.log(Tr[:, want[t + 1]])))
         if not np.array_equal(np.asarray(st), want):
             fails.append({"fn": "backward_sample(categorical:=argmax)", "observed": [int(v) for v in st], "required": [int(v) for v in want]})
+    # a REDUCIBLE chain (two closed classes) with evidence that is sharp for a while and then favours the other class:
+    # inside one filtering vector the log probabilities are more than 100 nats apart; nothing may be flushed to zero
+    K, M = 4, 3
+    Tr = np.array([[0.6, 0.4, 0.0, 0.0], [0.3, 0.7, 0.0, 0.0], [0.0, 0.0, 0.5, 0.5], [0.0, 0.0, 0.2, 0.8]])
+    pi = np.array([0.25, 0.25, 0.25, 0.25])
+    Em = np.array([[1 - 2e-30, 1e-30, 1e-30], [1 - 2e-30, 1e-30, 1e-30], [1e-18, 1 - 2e-18, 1e-18], [1e-18, 1 - 2e-18, 1e-18]])
+    y = np.array([0, 0, 0, 0, 0, 1, 1, 1, 1])
+    T = len(y)
+    with np.errstate(divide="ignore"):
+        lpi, lTr, lEm = np.log(pi), np.log(Tr), np.log(Em)
+    la = lpi + lEm[:, y[0]]
+    for t in range(1, T):
+        m = la.max()
+        with np.errstate(divide="ignore"):
+            la = np.log(np.exp(la - m) @ Tr) + m + lEm[:, y[t]]   # float64: a range of 400 nats is representable
+    lm_req = float(la.max() + np.log(np.exp(la - la.max()).sum()))
+    filt_req = np.exp(la - lm_req)
+    alpha, lm = SS.forward_filter(jnp.array(y), jnp.array(pi), jnp.array(Tr), jnp.array(Em, dtype=jnp.float32))
+    if not close(lm, lm_req, 1e-3) or not close(np.exp(np.asarray(alpha[-1], dtype=np.float64)), filt_req, 1e-3):
+        fails.append({"fn": "forward_filter", "scenario": "reducible chain (two closed classes), 5 observations sharp for class A then 4 sharp for class B", "observed_log_marginal": float(lm), "required": lm_req,
+                      "observed_last_filter": [float(v) for v in np.exp(np.asarray(alpha[-1]))], "required_last_filter": [float(v) for v in filt_req]})
 else:
     for ds, do, T, int_prior in [(2, 1, 1, False), (2, 1, 3, False), (1, 2, 2, False), (3, 2, 4, False), (2, 1, 3, True)]:
         A = rng.normal(size=(ds, ds)) * 0.5; C = rng.normal(size=(do, ds))
